@@ -161,16 +161,83 @@ static bool parse_seq(const std::string& s, Seq& q) {
 	return true;
 }
 
+
 // ---------------------------------------------------------------------------------------------
 // counters
 static int C_EVAL, C_DISTINCT, C_ITEMS;
 static int W_SWAP_SC, W_NOSWAP_SC, W_ARR_SWAP, W_ARR_NOSWAP, W_ARR_EMPTY, W_BYTEARR, W_SWITCH, W_DEFAULT_ORD, W_NAN, W_STR, W_LSTR, W_A100, W_L64, W_MINMAX;
-static int C_CH[4];
-static const char* CHNAME[4] = { "buf", "file", "mem", "pair" };
-enum { CH_BUF = 1, CH_FILE = 2, CH_MEM = 4, CH_PAIR = 8 };
-struct Local { uint64_t v[64]; Local() { memset(v, 0, sizeof v); } void flush() { for (int i = 0; i < 64; i++) if (v[i]) { vf::add(i, v[i]); v[i] = 0; } } };
+// observed while running (not derived from the input): a zero here means the family never happened
+static int W_CHAR, W_PARTIAL_RD, W_PARTIAL_WR, W_NONBLOCK, W_SELF, W_SELF_MOVED, W_GROW_SMALL, W_GROW_BIG, W_FILE_FLUSH, W_LSTR_FILLED, W_LSTR_HEAP,
+	W_PRE_OPEN, W_REOPEN, W_HANDLE2, W_BLOCK_RD, W_REST_RD, W_SKIP;
+enum { NLOCAL = 128 };
+struct Local { uint64_t v[NLOCAL]; Local() { memset(v, 0, sizeof v); } void flush() { for (int i = 0; i < NLOCAL; i++) if (v[i]) { vf::add(i, v[i]); v[i] = 0; } } };
 static Local L;
 #define CNT(c) (L.v[(c)]++)
+
+// channel variants: what a case string names before the '|'
+enum { M_OP = 0, M_TPL = 1, M_BLK = 2, M_SKIP = 3 };             // reader: operator>>, read<T>(), byte-block readers read(n)/read(), skip() over all but the last item
+enum { SH_CTOR = 0, SH_PRE, SH_DEF, SH_RE, SH_H2 };               // object shape (see run_file / run_mem)
+static const char* HOW[4] = { ">>", "read<T>()", "read(n)/read()", "skip() then >>" };
+struct Variant { const char* name; int ch, shape, k; bool nb; int mode; };
+static const char* CHNAME[4] = { "buf", "file", "mem", "pair" };
+static const Variant VAR[] = {
+	{ "buf", 0, 0, 0, false, M_OP }, { "file", 1, SH_CTOR, 0, false, M_OP }, { "mem", 2, SH_CTOR, 0, false, M_OP }, { "pair", 3, 0, 0, false, M_OP },
+	{ "file.pre", 1, SH_PRE, 0, false, M_OP },   // File f(path); f.setEndian(e); f.open(mode)
+	{ "file.def", 1, SH_DEF, 0, false, M_OP },   // File f; f.setEndian(e); f.open(path, mode)
+	{ "file.re", 1, SH_RE, 0, false, M_OP },     // close() + open() between every two items, the order is not set again
+	{ "mem.h2", 2, SH_H2, 0, false, M_OP },      // the order is always set through a second handle of the same Socket
+	{ "pair.k1", 3, 0, 1, false, M_OP }, { "pair.k2", 3, 0, 2, false, M_OP }, { "pair.k3", 3, 0, 3, false, M_OP }, { "pair.k5", 3, 0, 5, false, M_OP }, { "pair.k8", 3, 0, 8, false, M_OP },
+	{ "pair.k1.blk", 3, 0, 1, false, M_BLK }, { "pair.k2.blk", 3, 0, 2, false, M_BLK }, { "pair.k3.blk", 3, 0, 3, false, M_BLK }, { "pair.k5.blk", 3, 0, 5, false, M_BLK }, { "pair.k8.blk", 3, 0, 8, false, M_BLK },
+	{ "pair.nb", 3, 0, 0, true, M_OP }, { "pair.nb.blk", 3, 0, 0, true, M_BLK }, { "pair.blk", 3, 0, 0, false, M_BLK }, { "pair.skip", 3, 0, 0, false, M_SKIP },
+};
+enum { NVAR = sizeof VAR / sizeof VAR[0] };
+static const unsigned V_BUF = 1, V_FILE = 2, V_MEM = 4, V_PAIR = 8, V_FILE_PRE = 1u << 4, V_FILE_DEF = 1u << 5, V_FILE_RE = 1u << 6, V_MEM_H2 = 1u << 7,
+	V_PAIR_K1 = 1u << 8, V_PAIR_K3 = 1u << 10, V_PAIR_K = 0x1fu << 8, V_PAIR_K1BLK = 1u << 13, V_PAIR_KBLK = 0x1fu << 13,
+	V_PAIR_NB = 1u << 18, V_PAIR_NBBLK = 1u << 19, V_PAIR_BLK = 1u << 20, V_PAIR_SKIP = 1u << 21;
+static int C_VAR[NVAR];
+
+// ---------------------------------------------------------------------------------------------
+// partial transfers: ::read / ::recv / ::send / ::write of this executable (asl is linked statically, so these are the
+// ones Socket_ calls) forward to the real functions; while a cap is set, a call on one of the two socketpair
+// descriptors transfers at most g_cap_k bytes, as a stream socket is allowed to.
+static int g_cap_fd[2] = { -1, -1 };
+static int g_cap_k = 0;
+static inline bool capped(int fd, size_t n) { return g_cap_k > 0 && (fd == g_cap_fd[0] || fd == g_cap_fd[1]) && n > (size_t)g_cap_k; }
+// the oracle side of the pair: everything asl has sent so far. Taken off the pair after every send of asl
+// (hundreds of 1-byte sends would otherwise fill the kernel's send buffer and block this single thread).
+static std::string g_pair_got;
+static bool g_drain_on = false;
+typedef ssize_t (*RecvF)(int, void*, size_t, int);
+static RecvF real_recv() { static RecvF f = (RecvF)dlsym(RTLD_NEXT, "recv"); return f; }
+static void drain(int fd, std::string& to) {
+	char buf[4096]; ssize_t k;
+	while ((k = real_recv()(fd, buf, sizeof buf, MSG_DONTWAIT)) > 0) to.append(buf, (size_t)k);
+}
+extern "C" {
+ssize_t read(int fd, void* b, size_t n) {
+	typedef ssize_t (*F)(int, void*, size_t); static F real = (F)dlsym(RTLD_NEXT, "read");
+	if (capped(fd, n)) { n = (size_t)g_cap_k; CNT(W_PARTIAL_RD); }
+	return real(fd, b, n);
+}
+ssize_t recv(int fd, void* b, size_t n, int fl) {
+	if (capped(fd, n)) { n = (size_t)g_cap_k; CNT(W_PARTIAL_RD); }
+	return real_recv()(fd, b, n, fl);
+}
+ssize_t send(int fd, const void* b, size_t n, int fl) {
+	typedef ssize_t (*F)(int, const void*, size_t, int); static F real = (F)dlsym(RTLD_NEXT, "send");
+	if (capped(fd, n)) { n = (size_t)g_cap_k; CNT(W_PARTIAL_WR); }
+	ssize_t r = real(fd, b, n, fl);
+	if (g_drain_on && fd == g_cap_fd[0]) drain(g_cap_fd[1], g_pair_got);
+	return r;
+}
+ssize_t write(int fd, const void* b, size_t n) {
+	typedef ssize_t (*F)(int, const void*, size_t); static F real = (F)dlsym(RTLD_NEXT, "write");
+	if (capped(fd, n)) { n = (size_t)g_cap_k; CNT(W_PARTIAL_WR); }
+	ssize_t r = real(fd, b, n);
+	if (g_drain_on && fd == g_cap_fd[0]) drain(g_cap_fd[1], g_pair_got);
+	return r;
+}
+}
 
 // ---------------------------------------------------------------------------------------------
 // the asl side: typed writers / readers
@@ -182,6 +249,7 @@ template <class T> struct CT { typedef T type; };
 	case I32: F<int>(__VA_ARGS__); break; case U32: F<unsigned>(__VA_ARGS__); break; \
 	case I64: F<asl::Long>(__VA_ARGS__); break; case U64: F<asl::ULong>(__VA_ARGS__); break; \
 	case F32: F<float>(__VA_ARGS__); break; case F64: F<double>(__VA_ARGS__); break; \
+	case C8: F<char>(__VA_ARGS__); break; \
 	default: F<bool>(__VA_ARGS__); break; }
 
 template <class T, class S> static void w_scalar(S& s, const char* nat) { T v; memcpy(&v, nat, sizeof(T)); s << v; }
@@ -194,12 +262,15 @@ template <class T, class S> static void w_array(S& s, const char* nat, int n) {
 	// the operator takes a const array: the values (seen through either handle) must be what they were, or the next write of them differs
 	for (int j = 0; j < n && g_arg_modified < 0; j++) if (memcmp(&other[j], nat + (size_t)j * sizeof(T), sizeof(T)) != 0 || memcmp(&a[j], nat + (size_t)j * sizeof(T), sizeof(T)) != 0) g_arg_modified = j;
 }
+static void w_self(asl::StreamBuffer& s) { s << *s; } // the documented way to hand the content on (socket << *buffer), here with the buffer itself as the sink
+template <class S> static void w_self(S&) {}         // SELF items only run on the buf channel
 template <class S> static void write_item(S& s, const Item& it, const std::string& nat) {
 	switch (it.kind) {
 	case SCALAR: TY_DISPATCH(it.ty, w_scalar, s, nat.data()); break;
 	case ARRAY: TY_DISPATCH(it.ty, w_array, s, nat.data(), it.n); break;
 	case STRING: s << asl::String(nat.data(), it.n); break;
 	case CSTR: s << nat.c_str(); break;
+	case SELF: w_self(s); break;
 	default: s << (int)it.n << asl::String(nat.data(), it.n); break;
 	}
 }
@@ -215,21 +286,38 @@ template <class T, class R> static void r_elems(R& r, char* out, int n, bool alt
 static void r_bytes(asl::StreamBufferReader& r, int n, std::string& out) { asl::ByteArray b = r.read(n); out.assign((const char*)b.data(), b.length()); }
 static void r_bytes(asl::File& f, int n, std::string& out) { out.assign((size_t)n, '\x5a'); int k = f.read(n ? &out[0] : (char*)"", n); out.resize(k < 0 ? 0 : k); }
 static void r_bytes(asl::Socket& s, int n, std::string& out) { asl::String x = s.readString(n); out.assign(*x, x.length()); }
-static void r_lstr(asl::StreamBufferReader& r, std::string& out, int expect_n) {
+// byte-block readers: read(n) -> ByteArray, and read() = everything that is left (only asked for the last item)
+static void r_block(asl::StreamBufferReader& r, int n, bool rest, std::string& out) { asl::ByteArray b = rest ? r.read() : r.read(n); out.assign((const char*)b.data(), b.length()); CNT(W_BLOCK_RD); if (rest) CNT(W_REST_RD); }
+static void r_block(asl::Socket& s, int n, bool rest, std::string& out) { asl::ByteArray b = rest ? s.read() : s.read(n); out.assign((const char*)b.data(), b.length()); CNT(W_BLOCK_RD); if (rest) CNT(W_REST_RD); }
+static void r_block(asl::File& f, int n, bool, std::string& out) { r_bytes(f, n, out); } // File has no ByteArray reader
+// length-prefixed strings: operator>>(String&) of File and Socket, into a String that is fresh / holds inline content / holds heap content
+static void lstr_target(asl::String& x, int var) {
+	if (var == 1) x = "0123456789";
+	else if (var == 2) x = "a previous value of sixty characters, stored on the heap....";
+	if (var) CNT(W_LSTR_FILLED);
+}
+static void lstr_result(const asl::String& x, int n, std::string& out) {
+	if (x._size != 0) CNT(W_LSTR_HEAP);
+	if (x.length() != n) { out = fmt("<String of length %d>", x.length()); return; }
+	out.assign(*x, strlen(*x)); // as a C string: the terminator must sit right after the n bytes (the payload never contains NUL)
+}
+static void r_lstr(asl::StreamBufferReader& r, std::string& out, const Item& it) {
 	int n = 0x5a5a5a5a; r >> n;
-	if (n != expect_n) { out = fmt("<length prefix read as %d>", n); return; }
+	if (n != it.n) { out = fmt("<length prefix read as %d>", n); return; }
 	r_bytes(r, n, out);
 }
-static void r_lstr(asl::File& f, std::string& out, int) { asl::String x; f >> x; out.assign(*x, x.length()); }
-static void r_lstr(asl::Socket& s, std::string& out, int) { asl::String x; s >> x; out.assign(*x, x.length()); }
+static void r_lstr(asl::File& f, std::string& out, const Item& it) { asl::String x; lstr_target(x, it.var); f >> x; lstr_result(x, it.n, out); }
+static void r_lstr(asl::Socket& s, std::string& out, const Item& it) { asl::String x; lstr_target(x, it.var); s >> x; lstr_result(x, it.n, out); }
 
-template <class R> static void read_item(R& r, const Item& it, std::string& out, bool alt) {
-	if (it.kind == SCALAR || it.kind == ARRAY) {
+static bool bytes_like(const Item& it) { return (it.kind == ARRAY && it.ty == U8) || it.kind == STRING || it.kind == CSTR || it.kind == SELF; }
+template <class R> static void read_item(R& r, const Item& it, std::string& out, int mode, bool rest = false) {
+	if (mode == M_BLK && bytes_like(it)) r_block(r, it.n, rest, out);
+	else if (it.kind == SCALAR || it.kind == ARRAY) {
 		out.assign((size_t)it.n * TYSIZE[it.ty], '\x5a');
 		char* o = out.empty() ? (char*)"" : &out[0];
-		TY_DISPATCH(it.ty, r_elems, r, o, it.n, alt);
+		TY_DISPATCH(it.ty, r_elems, r, o, it.n, mode == M_TPL);
 	}
-	else if (it.kind == LSTRING) r_lstr(r, out, it.n);
+	else if (it.kind == LSTRING) r_lstr(r, out, it);
 	else r_bytes(r, it.n, out);
 }
 
@@ -263,12 +351,15 @@ static void prepare(const Seq& q, Prepared& P) {
 	P.seq = q; P.nat.resize(q.size()); P.off.resize(q.size()); P.exp.clear();
 	unsigned ctr = 0;
 	for (size_t i = 0; i < q.size(); i++) {
-		item_native(q[i].it, ctr, P.nat[i]);
-		ref_serialize(q[i].it, q[i].ord, P.nat[i], P.exp);
+		if (q[i].it.kind == SELF) { P.nat[i] = P.exp; P.seq[i].it.n = (int)P.exp.size(); ctr += (unsigned)P.exp.size(); } // the value written is the stream so far
+		else item_native(q[i].it, ctr, P.nat[i]);
+		ref_serialize(P.seq[i].it, q[i].ord, P.nat[i], P.exp);
 		P.off[i] = P.exp.size();
 	}
 }
-static const char* kindword(const Item& it) { return it.kind == SCALAR ? "scalar" : it.kind == ARRAY ? "array" : "string"; }
+static size_t item_bytes(const Prepared& P, size_t i) { return P.off[i] - (i ? P.off[i - 1] : 0); }
+static bool extras(const Seq& q) { return q.size() <= 2 || q.size() >= 64; } // the additional reader passes (read<T>() on File, read(n)/read(), skip) run on the short and on the 64-item sequences
+static const char* kindword(const Item& it) { return it.kind == SCALAR ? "scalar" : it.kind == ARRAY ? "array" : it.kind == SELF ? "self" : "string"; }
 static std::string clip(const std::string& h) { return h.size() > 96 ? h.substr(0, 96) + fmt("...(%d bytes)", (int)h.size() / 2) : h; }
 
 static void report_bytes(const char* ch, const Prepared& P, const std::string& got, const std::string& kase) {
@@ -317,13 +408,17 @@ static bool asan_check(const char* ch, const char* phase, const std::string& kas
 // --- StreamBuffer -> StreamBufferReader
 static void run_buf(const Prepared& P, const std::string& kase) {
 	const Seq& q = P.seq;
-	CNT(C_CH[0]); CNT(C_EVAL);
-	bool bytes_ok = true;
+	CNT(C_EVAL);
+	bool bytes_ok = true, ex = extras(q);
 	asl::StreamBuffer* sbp = q[0].ord == O_LITTLE ? new asl::StreamBuffer() : new asl::StreamBuffer(ORDASL[q[0].ord]); // LITTLE is the documented default
+	if (q[0].ord == O_LITTLE) CNT(W_DEFAULT_ORD);
 	asl::StreamBuffer& sb = *sbp;
 	for (size_t i = 0; i < q.size(); i++) {
 		if (i && q[i].ord != q[i - 1].ord) sb.setEndian(ORDASL[q[i].ord]);
+		int cap0 = sb.d().s; const asl::byte* blk0 = sb._a; // allocated size and block before the write (observation only)
 		write_item(sb, q[i].it, P.nat[i]); check_arg("buf", P, i, kase);
+		if (sb.d().s != cap0) { if (cap0 >= 2048) CNT(W_GROW_BIG); else CNT(W_GROW_SMALL); } // reserve() reallocs in place of malloc+copy from 2048 bytes on
+		if (q[i].it.kind == SELF) { CNT(W_SELF); if (sb._a != blk0) CNT(W_SELF_MOVED); }
 		if (bytes_ok && (size_t)sb.length() != P.off[i]) { bytes_ok = false; report_len("buf", P, i, sb.length(), kase); }
 	}
 	if (asan_check("buf", "writing", kase)) bytes_ok = false;
@@ -337,7 +432,7 @@ static void run_buf(const Prepared& P, const std::string& kase) {
 		asl::StreamBufferReader& r = *rp;
 		for (size_t i = 0; i < q.size(); i++) {
 			if (i && q[i].ord != q[i - 1].ord) r.setEndian(ORDASL[q[i].ord]);
-			read_item(r, q[i].it, got, false);
+			read_item(r, q[i].it, got, M_OP);
 			if (got != P.nat[i]) { report_value("buf", "StreamBufferReader(ByteArray) >>", P, i, got, kase); break; }
 			if (i + 1 == q.size() && (r.length() != 0 || (bool)r)) report_rest("buf", "StreamBufferReader(ByteArray)", r.length(), kase);
 		}
@@ -345,20 +440,24 @@ static void run_buf(const Prepared& P, const std::string& kase) {
 		asan_check("buf", "reading with operator>>", kase);
 	}
 	delete sbp;
-	// (2) reader over the reference bytes placed flush against the end of a heap block, read<T>()
-	{
+	// (2) reader over the reference bytes placed flush against the end of a heap block: read<T>(); on the short and the 64-item
+	//     sequences also (3) read(n) for byte arrays and strings with read() for the last one, (4) skip() over all but the last item
+	for (int mode = M_TPL; mode <= (ex ? M_SKIP : M_TPL); mode++) {
+		if (mode == M_SKIP && q.size() < 2) break;
 		size_t n = P.exp.size();
 		asl::byte* blk = (asl::byte*)malloc(n ? n : 1);
 		memcpy(blk, P.exp.data(), n);
 		asl::StreamBufferReader r(blk, (int)n, ORDASL[q[0].ord]);
 		for (size_t i = 0; i < q.size(); i++) {
+			bool last = i + 1 == q.size();
 			if (i && q[i].ord != q[i - 1].ord) r.setEndian(ORDASL[q[i].ord]);
-			read_item(r, q[i].it, got, true);
-			if (got != P.nat[i]) { report_value("buf", "StreamBufferReader(ptr,n) read<T>()", P, i, got, kase); break; }
-			if (i + 1 == q.size() && (r.length() != 0 || (bool)r)) report_rest("buf", "StreamBufferReader(ptr,n)", r.length(), kase);
+			if (mode == M_SKIP && !last) { r.skip((int)item_bytes(P, i)); CNT(W_SKIP); continue; }
+			read_item(r, q[i].it, got, mode == M_SKIP ? M_OP : mode, last);
+			if (got != P.nat[i]) { report_value("buf", fmt("StreamBufferReader(ptr,n) %s", HOW[mode]).c_str(), P, i, got, kase); break; }
+			if (last && (r.length() != 0 || (bool)r)) report_rest("buf", fmt("StreamBufferReader(ptr,n) %s", HOW[mode]).c_str(), r.length(), kase);
 		}
 		free(blk);
-		asan_check("buf", "reading with read<T>()", kase);
+		asan_check("buf", fmt("reading with %s", HOW[mode]).c_str(), kase);
 	}
 }
 
@@ -371,21 +470,44 @@ static bool slurp(const std::string& path, std::string& out) {
 	while ((k = fread(buf, 1, sizeof buf, f)) > 0) out.append(buf, k);
 	fclose(f); return true;
 }
-static void run_file(const Prepared& P, const std::string& kase) {
+// shapes: SH_CTOR File f(path, mode) then setEndian; SH_PRE File f(path); setEndian; open(mode); SH_DEF File f; setEndian; open(path, mode);
+// SH_RE as SH_CTOR with close() + open(APPEND / READ + seek) between every two items. The order is a setting of the object:
+// it is set once (when it is not File's default NATIVE) and again only where the sequence switches it.
+static asl::File* file_open(int shape, asl::File::OpenMode mode, int ord, bool writing) {
+	asl::String path = vfx::A(g_path);
+	asl::File* f;
+	bool ok;
+	if (shape == SH_PRE || shape == SH_DEF) {
+		f = shape == SH_PRE ? new asl::File(path) : new asl::File();
+		if (ord != O_NATIVE) { f->setEndian(ORDASL[ord]); CNT(W_PRE_OPEN); }
+		ok = shape == SH_PRE ? f->open(mode) : f->open(path, mode);
+	}
+	else {
+		f = new asl::File(path, mode);
+		ok = (bool)*f;
+		if (ord != O_NATIVE) f->setEndian(ORDASL[ord]);
+	}
+	if (ord == O_NATIVE && writing) CNT(W_DEFAULT_ORD); // NATIVE is File's default
+	if (!ok) { fprintf(stderr, "c16: cannot open scratch file %s\n", g_path.c_str()); _exit(2); }
+	return f;
+}
+static void run_file(const Prepared& P, const std::string& kase, int shape) {
 	const Seq& q = P.seq;
-	CNT(C_CH[1]); CNT(C_EVAL);
+	CNT(C_EVAL);
 	if (g_path.empty()) g_path = vf::scratch_dir() + fmt("/c16.%d.%d.bin", vf::worker_id(), (int)getpid());
 	bool bytes_ok = true;
 	{
-		asl::File f(vfx::A(g_path), asl::File::WRITE);
-		if (!f) { fprintf(stderr, "c16: cannot create scratch file %s\n", g_path.c_str()); _exit(2); }
-		if (q[0].ord != O_NATIVE) f.setEndian(ORDASL[q[0].ord]); else CNT(W_DEFAULT_ORD); // NATIVE is File's default
+		asl::File* fp = file_open(shape, asl::File::WRITE, q[0].ord, true);
+		asl::File& f = *fp;
 		for (size_t i = 0; i < q.size(); i++) {
+			if (i && shape == SH_RE) { f.close(); if (!f.open(asl::File::APPEND)) { fprintf(stderr, "c16: cannot reopen scratch file\n"); _exit(2); } CNT(W_REOPEN); }
 			if (i && q[i].ord != q[i - 1].ord) f.setEndian(ORDASL[q[i].ord]);
 			write_item(f, q[i].it, P.nat[i]); check_arg("file", P, i, kase);
-			if (bytes_ok && (size_t)f.position() != P.off[i]) { bytes_ok = false; report_len("file", P, i, (long)f.position(), kase); }
+			if (bytes_ok && shape != SH_RE && (size_t)f.position() != P.off[i]) { bytes_ok = false; report_len("file", P, i, (long)f.position(), kase); }
+			if (P.off[i] > 4096 && shape != SH_RE) { struct stat st; if (fstat(fileno(f.stdio()), &st) == 0 && st.st_size > 0) CNT(W_FILE_FLUSH); } // stdio emptied its buffer in mid-stream
 		}
-	} // destructor closes
+		delete fp; // destructor closes
+	}
 	if (asan_check("file", "writing", kase)) bytes_ok = false;
 	std::string got;
 	if (!slurp(g_path, got)) { fprintf(stderr, "c16: cannot reopen scratch file\n"); _exit(2); }
@@ -396,12 +518,12 @@ static void run_file(const Prepared& P, const std::string& kase) {
 		if (w) { fwrite(P.exp.data(), 1, P.exp.size(), w); fclose(w); }
 	}
 	for (int alt = 0; alt < 2; alt++) {
-		asl::File f(vfx::A(g_path), asl::File::READ);
-		if (!f) { fprintf(stderr, "c16: cannot open scratch file for reading\n"); _exit(2); }
-		if (q[0].ord != O_NATIVE) f.setEndian(ORDASL[q[0].ord]);
+		asl::File* fp = file_open(shape, asl::File::READ, q[0].ord, false);
+		asl::File& f = *fp;
 		for (size_t i = 0; i < q.size(); i++) {
+			if (i && shape == SH_RE) { f.close(); if (!f.open(asl::File::READ)) { fprintf(stderr, "c16: cannot reopen scratch file\n"); _exit(2); } f.seek((asl::Long)P.off[i - 1]); }
 			if (i && q[i].ord != q[i - 1].ord) f.setEndian(ORDASL[q[i].ord]);
-			read_item(f, q[i].it, got, alt != 0);
+			read_item(f, q[i].it, got, alt ? M_TPL : M_OP);
 			if (got != P.nat[i]) { report_value("file", alt ? "File read<T>()" : "File >>", P, i, got, kase); break; }
 			if (i + 1 == q.size()) {
 				long pos = (long)f.position();
@@ -409,22 +531,25 @@ static void run_file(const Prepared& P, const std::string& kase) {
 				if (pos != (long)P.exp.size() || k != 0 || !f.end()) report_rest("file", "File", (long)P.exp.size() - pos, kase);
 			}
 		}
-		if (!vf::opt.replay && q.size() > 2) break; // read<T>() is a one-line wrapper of >>: it is exercised on every sequence of length <= 2 (and on a replay)
+		delete fp;
+		if (!extras(q)) break; // read<T>() is a one-line wrapper of >>: it is exercised on every sequence of length <= 2 and on the 64-item ones
 	}
 	asan_check("file", "reading", kase);
 }
 
-// --- Socket -> Socket over the in-memory Socket_
-static void run_mem(const Prepared& P, const std::string& kase) {
+// --- Socket -> Socket over the in-memory Socket_ (SH_H2: every setEndian goes through a second handle of the same socket)
+static void run_mem(const Prepared& P, const std::string& kase, int shape) {
 	const Seq& q = P.seq;
-	CNT(C_CH[2]); CNT(C_EVAL);
+	CNT(C_EVAL);
 	Pipe pipe;
 	bool bytes_ok = true;
 	{
 		asl::Socket w(new MemSocket_(0, &pipe));
-		if (q[0].ord != O_NATIVE) w.setEndian(ORDASL[q[0].ord]); else CNT(W_DEFAULT_ORD);
+		asl::Socket w2 = w;
+		asl::Socket& ws = shape == SH_H2 ? w2 : w;
+		if (q[0].ord != O_NATIVE) { ws.setEndian(ORDASL[q[0].ord]); if (shape == SH_H2) CNT(W_HANDLE2); } else CNT(W_DEFAULT_ORD);
 		for (size_t i = 0; i < q.size(); i++) {
-			if (i && q[i].ord != q[i - 1].ord) w.setEndian(ORDASL[q[i].ord]);
+			if (i && q[i].ord != q[i - 1].ord) { ws.setEndian(ORDASL[q[i].ord]); if (shape == SH_H2) CNT(W_HANDLE2); }
 			write_item(w, q[i].it, P.nat[i]); check_arg("mem", P, i, kase);
 			if (bytes_ok && pipe.data.size() != P.off[i]) { bytes_ok = false; report_len("mem", P, i, (long)pipe.data.size(), kase); }
 		}
@@ -432,42 +557,51 @@ static void run_mem(const Prepared& P, const std::string& kase) {
 	if (asan_check("mem", "writing", kase)) bytes_ok = false;
 	if (pipe.data != P.exp) { if (bytes_ok) report_bytes("mem", P, pipe.data, kase); pipe.data = P.exp; }
 	std::string got;
-	for (int alt = 0; alt < 2; alt++) {
+	for (int mode = M_OP; mode <= (extras(q) ? M_SKIP : M_TPL); mode++) {
+		if (mode == M_SKIP && q.size() < 2) break;
 		pipe.rpos = 0;
 		asl::Socket r(new MemSocket_(&pipe, 0));
-		if (q[0].ord != O_NATIVE) r.setEndian(ORDASL[q[0].ord]);
+		asl::Socket r2 = r;
+		asl::Socket& rs = shape == SH_H2 ? r2 : r;
+		if (q[0].ord != O_NATIVE) rs.setEndian(ORDASL[q[0].ord]);
 		for (size_t i = 0; i < q.size(); i++) {
-			if (i && q[i].ord != q[i - 1].ord) r.setEndian(ORDASL[q[i].ord]);
-			read_item(r, q[i].it, got, alt != 0);
-			if (got != P.nat[i]) { report_value("mem", alt ? "Socket read<T>()" : "Socket >>", P, i, got, kase); break; }
-			if (i + 1 == q.size() && r.available() != 0) report_rest("mem", "Socket", r.available(), kase);
+			bool last = i + 1 == q.size();
+			if (i && q[i].ord != q[i - 1].ord) rs.setEndian(ORDASL[q[i].ord]);
+			if (mode == M_SKIP && !last) { r.skip((int)item_bytes(P, i)); CNT(W_SKIP); continue; }
+			read_item(r, q[i].it, got, mode == M_SKIP ? M_OP : mode, last);
+			if (got != P.nat[i]) { report_value("mem", fmt("Socket %s", HOW[mode]).c_str(), P, i, got, kase); break; }
+			if (last && r.available() != 0) report_rest("mem", fmt("Socket %s", HOW[mode]).c_str(), r.available(), kase);
 		}
 	}
 	asan_check("mem", "reading", kase);
 }
 
 // --- Socket -> Socket over an AF_UNIX socketpair (the real Socket_::write / read / available)
-// Single-threaded: the oracle side drains the pair after every item (many tiny sends would otherwise fill the
-// kernel's send buffer and block), then puts the stream back with one plain send() for the reading phase.
-static void drain(int fd, std::string& to) {
-	char buf[4096]; ssize_t k;
-	while ((k = recv(fd, buf, sizeof buf, MSG_DONTWAIT)) > 0) to.append(buf, (size_t)k);
-}
-static void run_pair(const Prepared& P, const std::string& kase) {
+// Single-threaded: the oracle side drains the pair after every item (and after every send of asl), then puts the stream back with one plain send() for the reading phase.
+// Variants: V.k > 0 caps every ::send / ::read of asl on the pair at k bytes (partial transfers: the loops of Socket_::write /
+// Socket_::read have to continue where the call stopped); V.nb marks both sockets non-blocking for asl (one call per transfer,
+// its count handed through; nothing is capped, so every transfer is complete); V.mode selects the readers.
+static void run_pair(const Prepared& P, const std::string& kase, const Variant& V) {
 	const Seq& q = P.seq;
-	CNT(C_CH[3]); CNT(C_EVAL);
+	CNT(C_EVAL);
 	int fd[2];
 	if (socketpair(AF_UNIX, SOCK_STREAM, 0, fd) != 0) { fprintf(stderr, "c16: socketpair failed\n"); _exit(2); }
 	struct timeval tv; tv.tv_sec = 20; tv.tv_usec = 0; // safety net only: a send that blocks becomes a harness error, never a verdict
 	setsockopt(fd[0], SOL_SOCKET, SO_SNDTIMEO, &tv, sizeof tv);
+	g_cap_fd[0] = fd[0]; g_cap_fd[1] = fd[1]; g_cap_k = 0;
 	bool bytes_ok = true;
 	{
 		asl::Socket w(fd[0]), r(fd[1]); // each Socket_ owns and closes its descriptor
+		if (V.nb) { w.setBlocking(false); r.setBlocking(false); CNT(W_NONBLOCK); }
 		if (q[0].ord != O_NATIVE) { w.setEndian(ORDASL[q[0].ord]); r.setEndian(ORDASL[q[0].ord]); }
-		std::string got;
+		std::string& got = g_pair_got;
+		got.clear();
 		for (size_t i = 0; i < q.size(); i++) {
 			if (i && q[i].ord != q[i - 1].ord) w.setEndian(ORDASL[q[i].ord]);
-			write_item(w, q[i].it, P.nat[i]); check_arg("pair", P, i, kase);
+			g_cap_k = V.k; g_drain_on = true;
+			write_item(w, q[i].it, P.nat[i]);
+			g_cap_k = 0; g_drain_on = false;
+			check_arg("pair", P, i, kase);
 			if (w.error() != 0 && (errno == EAGAIN || errno == EWOULDBLOCK)) { fprintf(stderr, "c16: socketpair send buffer exhausted in %s\n", kase.c_str()); _exit(2); }
 			drain(fd[1], got);
 			if (bytes_ok && got.size() != P.off[i]) { bytes_ok = false; report_len("pair", P, i, (long)got.size(), kase); }
@@ -476,16 +610,23 @@ static void run_pair(const Prepared& P, const std::string& kase) {
 		if (got != P.exp && bytes_ok) report_bytes("pair", P, got, kase);
 		if (!P.exp.empty() && send(fd[0], P.exp.data(), P.exp.size(), MSG_NOSIGNAL) != (ssize_t)P.exp.size()) { fprintf(stderr, "c16: socketpair refill failed\n"); _exit(2); }
 		shutdown(fd[0], SHUT_WR); // an over-read then sees end of stream instead of blocking
+		bool zero_before = false; // a zero-length read leaves the socket's error flag set (not demanded), after which available() and so read() without a count are void
 		for (size_t i = 0; i < q.size(); i++) {
+			bool last = i + 1 == q.size();
 			if (i && q[i].ord != q[i - 1].ord) r.setEndian(ORDASL[q[i].ord]);
-			read_item(r, q[i].it, got, false);
-			if (got != P.nat[i]) { report_value("pair", "Socket >>", P, i, got, kase); break; }
-			if (i + 1 == q.size()) {
+			g_cap_k = V.k;
+			if (V.mode == M_SKIP && !last) { r.skip((int)item_bytes(P, i)); g_cap_k = 0; CNT(W_SKIP); continue; }
+			read_item(r, q[i].it, got, V.mode == M_SKIP ? M_OP : V.mode, last && !zero_before);
+			g_cap_k = 0;
+			if (item_bytes(P, i) == 0 || (q[i].it.kind == LSTRING && q[i].it.n == 0)) zero_before = true;
+			if (got != P.nat[i]) { report_value("pair", fmt("Socket %s", HOW[V.mode]).c_str(), P, i, got, kase); break; }
+			if (last) {
 				char c; ssize_t rest = recv(fd[1], &c, 1, MSG_PEEK | MSG_DONTWAIT);
 				if (rest != 0) report_rest("pair", "Socket", (long)rest, kase); // (the error flag is not demanded: a zero-length read sets it)
 			}
 		}
 	}
+	g_cap_fd[0] = g_cap_fd[1] = -1;
 	asan_check("pair", "reading", kase);
 }
 
@@ -507,6 +648,7 @@ static void witnesses(const Prepared& P, int nch) {
 		if ((it.kind == SCALAR || it.kind == ARRAY) && it.n > 0) {
 			if (is_float(it.ty) && (it.pat == P_QNAN || it.pat == P_SNAN || it.pat == P_MIX)) CNT(W_NAN);
 			if (it.pat == P_MIN || it.pat == P_MAX) CNT(W_MINMAX);
+			if (it.ty == C8) CNT(W_CHAR);
 		}
 		if (it.kind == STRING || it.kind == CSTR) CNT(W_STR);
 		if (it.kind == LSTRING) CNT(W_LSTR);
@@ -515,53 +657,70 @@ static void witnesses(const Prepared& P, int nch) {
 	if (q.size() >= 64) CNT(W_L64);
 }
 
-static void run_seq(const Seq& q, int chmask, bool count_distinct = true) {
+static void run_seq(const Seq& q, unsigned mask, bool count_distinct = true) {
 	static Prepared P;
 	static std::string s, kase;
+	for (size_t i = 0; i < q.size(); i++) {
+		if (q[i].it.kind == SELF) mask &= V_BUF;                          // only a StreamBuffer can be written into itself
+		if (q[i].it.kind == LSTRING && q[i].it.var != 0) mask &= ~V_BUF;  // StreamBufferReader has no String reader: no target String there
+	}
+	if (q.size() < 2) mask &= ~(V_FILE_RE | V_PAIR_SKIP);
+	if (!mask) return;
 	s = seq_str(q);
 	kase = "*|"; kase += s;
 	vf::cur(kase);
 	prepare(q, P);
 	if (count_distinct) CNT(C_DISTINCT);
 	int nch = 0;
-	if (chmask & CH_BUF) { kase.replace(0, kase.find('|'), "buf"); run_buf(P, kase); nch++; }
-	if (chmask & CH_FILE) { kase.replace(0, kase.find('|'), "file"); run_file(P, kase); nch++; }
-	if (chmask & CH_MEM) { kase.replace(0, kase.find('|'), "mem"); run_mem(P, kase); nch++; }
-	if (chmask & CH_PAIR) { kase.replace(0, kase.find('|'), "pair"); run_pair(P, kase); nch++; }
+	for (int v = 0; v < NVAR; v++) {
+		if (!(mask & (1u << v))) continue;
+		const Variant& V = VAR[v];
+		kase.replace(0, kase.find('|'), V.name);
+		vf::cur(kase);
+		CNT(C_VAR[v]); nch++;
+		switch (V.ch) {
+		case 0: run_buf(P, kase); break;
+		case 1: run_file(P, kase, V.shape); break;
+		case 2: run_mem(P, kase, V.shape); break;
+		default: run_pair(P, kase, V); break;
+		}
+	}
 	witnesses(P, nch);
 }
 
-static int chmask_of(const std::string& c) {
-	if (c == "buf") return CH_BUF; if (c == "file") return CH_FILE; if (c == "mem") return CH_MEM; if (c == "pair") return CH_PAIR;
-	return CH_BUF | CH_FILE | CH_MEM | CH_PAIR;
+static unsigned chmask_of(const std::string& c) {
+	for (int v = 0; v < NVAR; v++) if (c == VAR[v].name) return 1u << v;
+	return V_BUF | V_FILE | V_MEM | V_PAIR;
 }
 
 // ---------------------------------------------------------------------------------------------
 // alphabets
-static Item mk(Kind k, Ty t, int n, Pat p) { Item it; it.kind = k; it.ty = t; it.n = n; it.pat = p; return it; }
-static std::vector<Item> alphabet(int level) { // 3 = full (with the macro items: 100-element arrays, 40-byte strings), 2 = large, 1 = medium, 0 = reduced
+static Item mk(Kind k, Ty t, int n, Pat p) { Item it; it.kind = k; it.ty = t; it.n = n; it.pat = p; it.var = 0; return it; }
+static std::vector<Item> alphabet(int level) { // 3 = full (with the macro items: 100-element arrays, 40-byte strings, every char item), 2 = large, 1 = medium, 0 = reduced
 	std::vector<Item> a;
+	const int NT = level >= 3 ? NTY : C8; // plain char: all its items in the full alphabet, its scalar in the medium and large ones
 	// scalars, simplest first
-	for (int t = 0; t < NTY; t++) a.push_back(mk(SCALAR, (Ty)t, 1, t == BOOL ? P_MAX : P_DIST));
+	for (int t = 0; t < NT; t++) a.push_back(mk(SCALAR, (Ty)t, 1, t == BOOL ? P_MAX : P_DIST));
 	a.push_back(mk(STRING, U8, 5, P_DIST));
-	for (int t = 0; t < NTY; t++) {
+	for (int t = 0; t < NT; t++) {
 		if (level == 0 && (t == I8 || t == U16 || t == U32 || t == I64)) continue; // reduced: one array type per element size and signedness class
 		a.push_back(mk(ARRAY, (Ty)t, 3, level >= 1 && t != BOOL ? P_MIX : P_DIST));
 	}
 	a.push_back(mk(ARRAY, I32, 0, P_DIST));
 	a.push_back(mk(ARRAY, F64, 1, P_SNAN));
 	if (level >= 1) {
-		for (int t = 0; t < NTY; t++) { a.push_back(mk(SCALAR, (Ty)t, 1, P_MIN)); if (t != BOOL) a.push_back(mk(SCALAR, (Ty)t, 1, P_MAX)); }
+		for (int t = 0; t < NT; t++) { a.push_back(mk(SCALAR, (Ty)t, 1, P_MIN)); if (t != BOOL) a.push_back(mk(SCALAR, (Ty)t, 1, P_MAX)); }
 		a.push_back(mk(SCALAR, F32, 1, P_QNAN)); a.push_back(mk(SCALAR, F32, 1, P_SNAN));
 		a.push_back(mk(SCALAR, F64, 1, P_QNAN)); a.push_back(mk(SCALAR, F64, 1, P_SNAN));
 		a.push_back(mk(STRING, U8, 0, P_DIST));
 		a.push_back(mk(LSTRING, U8, 5, P_DIST));
 		a.push_back(mk(CSTR, U8, 3, P_DIST));
+		if (level < 3) a.push_back(mk(SCALAR, C8, 1, P_DIST));
 	}
 	if (level >= 2) {
 		a.push_back(mk(STRING, U8, 1, P_DIST)); a.push_back(mk(LSTRING, U8, 0, P_DIST)); a.push_back(mk(CSTR, U8, 0, P_DIST));
 		if (level >= 3) { a.push_back(mk(STRING, U8, 40, P_DIST)); a.push_back(mk(LSTRING, U8, 40, P_DIST)); } // 40 > inline capacity of asl::String
-		for (int t = 0; t < NTY; t++) {
+		for (int t = 0; t < NT; t++) {
 			if (t != I32) a.push_back(mk(ARRAY, (Ty)t, 0, P_DIST));
 			a.push_back(mk(ARRAY, (Ty)t, 1, P_DIST));
 			a.push_back(mk(ARRAY, (Ty)t, 1, P_MIN));
@@ -573,42 +732,58 @@ static std::vector<Item> alphabet(int level) { // 3 = full (with the macro items
 	}
 	return a;
 }
+// the two special items: a 2400-byte array (as three 100-element u64 arrays in a row: it takes the buffer's allocation past the
+// 2048 bytes from which growth reallocs) and the buffer written into itself
+static std::vector<Item> with_specials(std::vector<Item> a) { a.push_back(mk(ARRAY, U64, 300, P_DIST)); a.push_back(mk(SELF, U8, 0, P_DIST)); return a; }
+enum { NSPECIAL = 2 };
 
-// all sequences of exactly len steps over alphabet a x 3 orders
-static void pass(const char* name, const std::vector<Item>& a, int len, int chmask) {
+// all sequences of exactly len steps over alphabet a x 3 orders; nspecial > 0: only those that contain one of the last nspecial items of a
+static void pass(const char* name, const std::vector<Item>& a, int len, unsigned chmask, int nspecial = 0) {
 	if (vf::deadline_passed()) { vf::cap_hit(fmt("%s: deadline", name)); return; }
-	const uint64_t K = a.size() * 3;
+	const uint64_t K = a.size() * 3, KS = (a.size() - (size_t)nspecial) * 3; // choices c >= KS are the special items
 	int outer = len < 2 ? len : 2;
-	uint64_t nouter = 1, ninner = 1;
+	uint64_t nouter = 1, ninner = 1, nplain = 1;
 	for (int i = 0; i < outer; i++) nouter *= K;
 	for (int i = outer; i < len; i++) ninner *= K;
+	for (int i = 0; i < len; i++) nplain *= KS;
 	vf::parallel(nouter, [&](uint64_t idx) {
 		if (vf::deadline_passed()) return;
 		Seq q(len);
 		uint64_t x = idx;
-		for (int i = outer - 1; i >= 0; i--) { uint64_t c = x % K; x /= K; q[i].it = a[c / 3]; q[i].ord = (int)(c % 3); }
+		bool sp_outer = false;
+		for (int i = outer - 1; i >= 0; i--) { uint64_t c = x % K; x /= K; q[i].it = a[c / 3]; q[i].ord = (int)(c % 3); if (c >= KS) sp_outer = true; }
 		for (uint64_t in = 0; in < ninner; in++) {
 			uint64_t y = in;
-			for (int i = len - 1; i >= outer; i--) { uint64_t c = y % K; y /= K; q[i].it = a[c / 3]; q[i].ord = (int)(c % 3); }
+			bool sp = sp_outer;
+			for (int i = len - 1; i >= outer; i--) { uint64_t c = y % K; y /= K; q[i].it = a[c / 3]; q[i].ord = (int)(c % 3); if (c >= KS) sp = true; }
+			if (nspecial && !sp) continue;
 			run_seq(q, chmask);
 		}
 		L.flush();
 	}, len < 2 ? 8 : 16);
 	if (vf::deadline_passed()) vf::cap_hit(fmt("%s: deadline", name));
-	vf::setinfo(fmt("pass.%s", name), fmt("{\"alphabet_items\":%d,\"orders\":3,\"length\":%d,\"sequences\":%llu}", (int)a.size(), len, (unsigned long long)(nouter * ninner)));
+	vf::setinfo(fmt("pass.%s", name), fmt("{\"alphabet_items\":%d,\"orders\":3,\"length\":%d,\"sequences\":%llu}", (int)a.size(), len, (unsigned long long)(nouter * ninner - (nspecial ? nplain : 0))));
 }
 
 int main(int argc, char** argv) {
 	vf::init(argc, argv, "C16", "c16_streams");
 	C_EVAL = vf::counter("evaluations"); C_DISTINCT = vf::counter("distinct_nontrivial"); C_ITEMS = vf::counter("items_streamed");
-	for (int i = 0; i < 4; i++) C_CH[i] = vf::counter(fmt("cases.%s", CHNAME[i]).c_str());
+	for (int i = 0; i < NVAR; i++) C_VAR[i] = vf::counter(fmt("cases.%s", VAR[i].name).c_str());
 	W_SWAP_SC = vf::counter("w.scalar_swapped_order"); W_NOSWAP_SC = vf::counter("w.scalar_native_order");
 	W_ARR_SWAP = vf::counter("w.array_swapping_branch"); W_ARR_NOSWAP = vf::counter("w.array_block_write_branch");
 	W_ARR_EMPTY = vf::counter("w.array_empty"); W_BYTEARR = vf::counter("w.bytearray_overload");
 	W_SWITCH = vf::counter("w.order_switched_midstream"); W_DEFAULT_ORD = vf::counter("w.default_order_never_set");
 	W_NAN = vf::counter("w.nan_payload_items"); W_MINMAX = vf::counter("w.min_max_items"); W_STR = vf::counter("w.string_items"); W_LSTR = vf::counter("w.length_prefixed_string_items");
 	W_A100 = vf::counter("w.array_len100"); W_L64 = vf::counter("w.sequences_of_64_items");
-	if (W_L64 >= 64) { fprintf(stderr, "c16: too many counters\n"); return 2; }
+	W_CHAR = vf::counter("w.plain_char_items");
+	W_PARTIAL_RD = vf::counter("w.partial_read"); W_PARTIAL_WR = vf::counter("w.partial_write"); W_NONBLOCK = vf::counter("w.nonblocking_socket_cases");
+	W_SELF = vf::counter("w.buffer_written_into_itself"); W_SELF_MOVED = vf::counter("w.self_write_moved_the_block");
+	W_GROW_SMALL = vf::counter("w.buf_growth_below_2048"); W_GROW_BIG = vf::counter("w.buf_growth_from_2048_up");
+	W_FILE_FLUSH = vf::counter("w.file_flushed_in_midstream");
+	W_LSTR_FILLED = vf::counter("w.lstring_read_into_filled_string"); W_LSTR_HEAP = vf::counter("w.lstring_result_on_heap");
+	W_PRE_OPEN = vf::counter("w.file_order_set_before_open"); W_REOPEN = vf::counter("w.file_reopened_midstream"); W_HANDLE2 = vf::counter("w.order_set_through_second_handle");
+	W_BLOCK_RD = vf::counter("w.byte_block_reads"); W_REST_RD = vf::counter("w.read_all_remaining"); W_SKIP = vf::counter("w.skips");
+	if (W_SKIP >= NLOCAL) { fprintf(stderr, "c16: too many counters\n"); return 2; }
 
 	if (vf::opt.replay) {
 		vf::parallel(1, [&](uint64_t) {
@@ -621,23 +796,33 @@ int main(int argc, char** argv) {
 		return vf::finish();
 	}
 	bool T = vf::opt.thorough();
-	const int ALL = CH_BUF | CH_FILE | CH_MEM | CH_PAIR, MAIN = CH_BUF | CH_FILE | CH_MEM;
+	const unsigned BASE = V_BUF | V_FILE | V_MEM | V_PAIR, MAIN = V_BUF | V_FILE | V_MEM;
+	// single items: every object shape, every cap of the partial transfers with both readers, the non-blocking sockets
+	const unsigned ONE = BASE | V_FILE_PRE | V_FILE_DEF | V_MEM_H2 | V_PAIR_K | V_PAIR_KBLK | V_PAIR_NB | V_PAIR_NBBLK | V_PAIR_BLK;
+	// pairs of items: reopen between them, the order switched through the second handle, skip over the first, one cap (all caps in the thorough tier)
+	const unsigned TWO = BASE | V_FILE_RE | V_MEM_H2 | V_PAIR_SKIP | V_PAIR_BLK | (T ? V_PAIR_K | V_FILE_PRE : V_PAIR_K3);
+	const unsigned LONG = BASE | V_FILE_RE | V_MEM_H2 | V_PAIR_SKIP | V_PAIR_BLK | V_PAIR_K3 | V_PAIR_K1BLK;
 	std::vector<Item> full = alphabet(3), large = alphabet(2), mid = alphabet(1), red = alphabet(0);
 	vf::setinfo("alphabet_full", fmt("%d", (int)full.size())); vf::setinfo("alphabet_large", fmt("%d", (int)large.size())); vf::setinfo("alphabet_medium", fmt("%d", (int)mid.size())); vf::setinfo("alphabet_reduced", fmt("%d", (int)red.size()));
 	vf::setinfo("host_byte_order", HOST_BIG ? "\"big\"" : "\"little\"");
+	vf::setinfo("channel_variants", fmt("%d", (int)NVAR));
 
-	// (a) all sequences of length 1 and 2 over the full alphabet, all four channels
-	pass("len1_full", full, 1, ALL);
-	pass("len2_full", full, 2, ALL);
+	// (a) all sequences of length 1 and 2 over the full alphabet, all four channels and their variants
+	pass("len1_full", full, 1, ONE);
+	pass("len2_full", full, 2, TWO);
 
-	// (b) every array length 0..100 of every element type, each byte order, all channels
+	// (b) every array length 0..100 of every element type, every string and length-prefixed string of length 0..100 (the latter read
+	//     into a fresh, an inline-filled and a heap-filled String), each byte order, all channels and the single-item variants
 	vf::parallel((uint64_t)NTY * 101, [&](uint64_t i) {
 		int t = (int)(i / 101), n = (int)(i % 101);
 		for (int o = 0; o < 3; o++) {
 			Seq q(1); q[0].it = mk(ARRAY, (Ty)t, n, P_DIST); q[0].ord = o;
 			bool dup = n == 0 || n == 1 || n == 3 || n == 100; // already counted in the length-1 pass
-			run_seq(q, ALL, !dup);
-			if (t == 0) { q[0].it = mk(STRING, U8, n, P_DIST); run_seq(q, ALL, !(n == 0 || n == 1 || n == 5 || n == 40)); }
+			run_seq(q, ONE, !dup);
+			if (t == 0) {
+				q[0].it = mk(STRING, U8, n, P_DIST); run_seq(q, ONE, !(n == 0 || n == 1 || n == 5 || n == 40));
+				for (int var = 0; var < 3; var++) { q[0].it = mk(LSTRING, U8, n, P_DIST); q[0].it.var = var; run_seq(q, ONE, !(var == 0 && (n == 0 || n == 5 || n == 40))); }
+			}
 		}
 		L.flush();
 	}, 8);
@@ -650,7 +835,7 @@ int main(int argc, char** argv) {
 			q[k].it = full[(start + (size_t)k * (sched == 2 ? 7 : 1)) % full.size()];
 			q[k].ord = sched == 0 ? k % 3 : sched == 1 ? (k / 5) % 3 : (k * k + (int)start) % 3; // switch at every position / every 5th / irregular
 		}
-		run_seq(q, ALL);
+		run_seq(q, LONG);
 		L.flush();
 	}, 4);
 
@@ -659,6 +844,15 @@ int main(int argc, char** argv) {
 	else {
 		pass("len3_large", large, 3, MAIN);
 		pass("len4_reduced", red, 4, MAIN);
+	}
+
+	// (e) the same alphabets plus the two special items (2400-byte array, the buffer written into itself): every sequence that
+	//     contains at least one of them; those with the self-write on the StreamBuffer only, the others on the three main channels
+	{
+		std::vector<Item> fullS = with_specials(full), largeS = with_specials(large), midS = with_specials(mid);
+		pass("len1_special", fullS, 1, MAIN, NSPECIAL);
+		pass("len2_special", fullS, 2, MAIN, NSPECIAL);
+		pass(T ? "len3_special_large" : "len3_special_medium", T ? largeS : midS, 3, MAIN, NSPECIAL);
 	}
 
 	// written-out samples
@@ -671,6 +865,8 @@ int main(int argc, char** argv) {
 		vf::sample("file|" + seq_str(q) + " -> expected stream " + vf::hex(P.exp));
 		q.resize(1); q[0].it = mk(ARRAY, F32, 3, P_MIX); q[0].ord = O_BIG; prepare(q, P);
 		vf::sample("mem|" + seq_str(q) + " -> expected stream " + vf::hex(P.exp));
+		q.resize(2); q[0].it = mk(SCALAR, I16, 1, P_DIST); q[0].ord = O_BIG; q[1].it = mk(SELF, U8, 0, P_DIST); q[1].ord = O_BIG; prepare(q, P);
+		vf::sample("buf|" + seq_str(q) + " -> expected stream " + vf::hex(P.exp));
 	}
 	return vf::finish();
 }
